@@ -144,7 +144,14 @@ func (c *collector) containsAll(v ssa.Value) (bool, string) {
 					// a field of a local struct used as accumulator
 					return c.accumulator(x.Parent(), nil, al, fv)
 				}
-				// a field of a longer-lived object: the registry collection itself
+				// a field of a longer-lived object: the registry collection itself — unless it is a slice
+				// kept NEXT TO a registry map of the same element type (a cached listing): that is complete
+				// only if every function that changes the map also resets the cache on every path
+				if _, isSlice := fv.Type().Underlying().(*types.Slice); isSlice {
+					if ok, why := c.cacheDisciplined(fv); !ok {
+						return false, why
+					}
+				}
 				return true, "the collection " + fv.Name() + " itself"
 			}
 			if al, ok := x.X.(*ssa.Alloc); ok {
@@ -755,4 +762,89 @@ func (c *collector) keyAccumulator(fn *ssa.Function, v ssa.Value, mapField *type
 		return true
 	}
 	return false
+}
+
+// cacheDisciplined: fv is a slice field; if its owner struct also has a map field with the same
+// element type (the registry the slice caches), every function that updates or deletes from that map
+// must store to fv on every path to a return that the update can reach.
+func (c *collector) cacheDisciplined(fv *types.Var) (bool, string) {
+	p := c.p
+	owner := fieldOwner(p, fv)
+	if owner == nil {
+		return true, ""
+	}
+	sl := fv.Type().Underlying().(*types.Slice)
+	st := owner.Underlying().(*types.Struct)
+	var regs []*types.Var
+	for i := 0; i < st.NumFields(); i++ {
+		if mt, ok := st.Field(i).Type().Underlying().(*types.Map); ok && types.Identical(mt.Elem(), sl.Elem()) {
+			regs = append(regs, st.Field(i))
+		}
+	}
+	if len(regs) == 0 {
+		return true, ""
+	}
+	isReg := func(v ssa.Value) bool {
+		ch, _ := addrChain(v)
+		if len(ch) == 0 || ch[len(ch)-1] == nil {
+			return false
+		}
+		for _, rg := range regs {
+			if ch[len(ch)-1] == rg {
+				return true
+			}
+		}
+		return false
+	}
+	for _, fn := range p.ModFuncs() {
+		var updates, resets []ssa.Instruction
+		allInstrs(fn, func(in ssa.Instruction) {
+			switch x := in.(type) {
+			case *ssa.MapUpdate:
+				if isReg(x.Map) {
+					updates = append(updates, x)
+				}
+			case *ssa.Call:
+				if b, ok := x.Call.Value.(*ssa.Builtin); ok && b.Name() == "delete" && len(x.Call.Args) > 0 && isReg(x.Call.Args[0]) {
+					updates = append(updates, x)
+				}
+			case *ssa.Store:
+				if f2, _ := fieldOfAddr(x.Addr); f2 == fv {
+					resets = append(resets, x)
+				}
+			}
+		})
+		if len(updates) == 0 {
+			continue
+		}
+		// construction of a fresh owner (NewStyleManager, Clone) fills the map of an object nobody has listed yet
+		freshOwner := true
+		for _, u := range updates {
+			var m ssa.Value
+			switch x := u.(type) {
+			case *ssa.MapUpdate:
+				m = x.Map
+			case *ssa.Call:
+				m = x.Call.Args[0]
+			}
+			_, root := addrChain(m)
+			if !freshObject(p, stripLoads(root)) {
+				freshOwner = false
+			}
+		}
+		if freshOwner {
+			continue
+		}
+		for _, u := range updates {
+			for _, ret := range returnsOf(fn) {
+				if !instrBefore(u, ret) {
+					continue
+				}
+				if len(resets) == 0 || !mustPassThrough(fn, ret, resets) {
+					return false, fmt.Sprintf("%s is a cached listing kept next to the registry map; %s changes the registry (at %s) but does not reset the cache on every path: a later listing — and the part written from it — misses the change", fv.Name(), shortName(fn), p.pos(u.Pos()))
+				}
+			}
+		}
+	}
+	return true, ""
 }
